@@ -72,11 +72,18 @@ def gen_value(rng, objs, allow_proxy=True):
     return rng.choice(PLAIN_POOL)
 
 
+def storm_step(hub, who, n_threads, n_calls, k):
+    """concurrent calls of a hosted method returning managed(<instance of an ad-hoc class>) from several threads in
+    several processes, while each process also keeps creating objects of a registered class with a slow constructor"""
+    return dict(storm=[[c, ['storm', f'o{hub["addr"]}', n_threads, n_calls, 4, 100000 * (k + 1) + 10000 * j]]
+                       for j, c in enumerate(who)], addr=hub['addr'], m='storm', want=n_threads * n_calls)
+
+
 def gen_case(rng: random.Random, tier: str, bias: str = ''):
     big = tier == 'thorough'
     objs = []
     addr = 0
-    kinds = ['list', 'dict', 'ns', 'value', 'counter']
+    kinds = ['list', 'dict', 'ns', 'value', 'counter', 'hub']
     chosen = [rng.choice(kinds) for _ in range(rng.choice([2, 3, 4]))]
     if rng.random() < 0.6 and 'list' not in chosen:
         chosen.append('list')
@@ -92,6 +99,10 @@ def gen_case(rng: random.Random, tier: str, bias: str = ''):
             o['init'] = rng.randrange(3)
             o['log'] = addr + 1
             addr += 1
+        elif k == 'hub':
+            # a Hub owns a Memory.Store and a Disk.Store: same class name, hence same made-up typeid, different methods
+            o['mem'], o['disk'] = addr + 1, addr + 2
+            addr += 2
         addr += 1
         objs.append(o)
     n_clients = rng.choice([2, 2, 3])
@@ -99,12 +110,13 @@ def gen_case(rng: random.Random, tier: str, bias: str = ''):
     n_ops = rng.choice([3, 6, 12]) if not big else rng.choice([12, 30, 60])
     steps = []
     # handles: every client has 'o<addr>' for every object; managed() results are kept per client
-    extra = {c: [] for c in clients}          # (handle, addr) of managed views held by client c
+    extra = {c: [] for c in clients}          # (handle, addr, kind) of managed views held by client c
+    n_big_imul = [0]
     lists = [o for o in objs if o['kind'] == 'list']
 
     def target_handles(c):
         hs = [(f'o{o["addr"]}', o['addr'], o['kind']) for o in objs]
-        hs += [(h, a, 'list') for h, a in extra[c]]
+        hs += list(extra[c])
         return hs
 
     def list_handles(c):
@@ -117,7 +129,15 @@ def gen_case(rng: random.Random, tier: str, bias: str = ''):
         idx = lambda: rng.choice([0, 0, 1, -1, 2, -2, 5, -7])         # noqa: E731
         if kind == 'list':
             m = rng.choice(['append', 'append', 'extend', 'insert', 'popLast', 'pop', 'getitem', 'setitem',
-                            'delitem', 'len', 'reverse', 'slice'])
+                            'delitem', 'len', 'reverse', 'slice', 'imul', 'iadd'])
+            if m == 'imul':
+                # `x *= k` with x bound to the proxy: the hosted list changes, x stays the proxy
+                k = rng.choice([0, 1, 2, 2, -1] if n_big_imul[0] < 3 else [0, 1, -1])
+                n_big_imul[0] += k >= 2
+                return dict(who=c, h=h, addr=a, m='imul', inplace=['imul', k], mint=[k])
+            if m == 'iadd':
+                vs = [val() for _ in range(rng.choice([0, 1, 2]))]
+                return dict(who=c, h=h, addr=a, m='iadd', inplace=['iadd', vs], mlist=vs)
             if m == 'append':
                 v = val()
                 return dict(who=c, h=h, addr=a, m='append', py=['append', [v]], margs=[v])
@@ -186,6 +206,26 @@ def gen_case(rng: random.Random, tier: str, bias: str = ''):
             if m == 'nget':
                 return dict(who=c, h=h, addr=a, m=m, attr=['getattr', ATTRS[x]], mnat=[x], keep=True)
             return dict(who=c, h=h, addr=a, m=m, attr=['delattr', ATTRS[x]], mnat=[x])
+        if kind == 'hub':
+            o = next(x for x in objs if x['addr'] == a)
+            which = rng.choice([0, 1])
+            hname = f'm{len(steps)}'
+            sub = o['mem'] if which == 0 else o['disk']
+            extra[c].append((hname, sub, 'mstore' if which == 0 else 'dstore'))
+            return dict(who=c, h=h, addr=a, m=f'view{which}', py=['mem_store' if which == 0 else 'disk_store', []],
+                        keepas=hname, new=[[hname, sub, 'cont']])
+        if kind in ('mstore', 'dstore'):
+            m = rng.choice(['add', 'add', 'size', 'items', 'own', 'own'])
+            if m == 'add':
+                v = gen_value(rng, objs, allow_proxy=False)
+                return dict(who=c, h=h, addr=a, m='append', py=['add', [v]], margs=[v])
+            if m == 'size':
+                return dict(who=c, h=h, addr=a, m='len', py=['size', []])
+            if m == 'items':
+                return dict(who=c, h=h, addr=a, m='slice', py=['items', []])
+            if kind == 'mstore':        # the method only this class has
+                return dict(who=c, h=h, addr=a, m='popLast', py=['take', []])
+            return dict(who=c, h=h, addr=a, m='reverse', py=['flip', []])
         if kind == 'value':
             if rng.random() < 0.5:
                 return dict(who=c, h=h, addr=a, m='vget', py=['get', []], keep=True)
@@ -213,7 +253,7 @@ def gen_case(rng: random.Random, tier: str, bias: str = ''):
         if m == 'history':
             hname = f'm{len(steps)}'
             log = next(o['log'] for o in objs if o['addr'] == a)
-            extra[c].append((hname, log))
+            extra[c].append((hname, log, 'list'))
             return dict(who=c, h=h, addr=a, m=m, py=['history', []], keepas=hname, new=[[hname, log, 'cont']])
         if m == 'snapshot':
             return dict(who=c, h=h, addr=a, m=m, py=['snapshot', []])
@@ -237,11 +277,34 @@ def gen_case(rng: random.Random, tier: str, bias: str = ''):
         o = rng.choice(ctrs)
         for c in rng.sample(clients, k=2):
             hname = f'm{len(steps)}'
-            extra[c].append((hname, o['log']))
+            extra[c].append((hname, o['log'], 'list'))
             steps.append(dict(who=c, h=f'o{o["addr"]}', addr=o['addr'], m='history', py=['history', []], keepas=hname,
                               new=[[hname, o['log'], 'cont']]))
             k += 1
+    hubs = [o for o in objs if o['kind'] == 'hub']
+    if hubs and rng.random() < 0.7:
+        # one process gets managed() proxies of both stores (same typeid, different method sets), in either order,
+        # and calls the method only one of them has
+        o = rng.choice(hubs)
+        c = rng.choice(clients)
+        for which in rng.sample([0, 1], k=2):
+            hname = f'm{len(steps)}'
+            sub = o['mem'] if which == 0 else o['disk']
+            extra[c].append((hname, sub, 'mstore' if which == 0 else 'dstore'))
+            steps.append(dict(who=c, h=f'o{o["addr"]}', addr=o['addr'], m=f'view{which}',
+                              py=['mem_store' if which == 0 else 'disk_store', []], keepas=hname, new=[[hname, sub, 'cont']]))
+            steps.append(dict(who=c, h=hname, addr=sub, m='append', py=['add', [which]], margs=[which]))
+            k += 2
+        for hname, sub, vk in extra[c][-2:]:
+            steps.append(dict(who=c, h=hname, addr=sub, m='popLast' if vk == 'mstore' else 'reverse',
+                              py=['take' if vk == 'mstore' else 'flip', []]))
+            k += 1
     while k < n_ops:
+        if hubs and rng.random() < 0.08:
+            steps.append(storm_step(rng.choice(hubs), rng.sample(clients, k=rng.choice([1, 2])), rng.choice([2, 3]),
+                                    rng.choice([10, 20]), len(steps)))
+            k += 1
+            continue
         if lists and rng.random() < 0.12:
             # a batch issued concurrently: distinct values appended to one list from several threads/processes
             tgt = rng.choice(lists)
@@ -261,13 +324,13 @@ def gen_case(rng: random.Random, tier: str, bias: str = ''):
             # a client drops one of its managed() views; every other view of that value — in this and in
             # the other processes — must stay live: each is called right away
             c = rng.choice(holders)
-            hname, log = extra[c].pop(rng.randrange(len(extra[c])))
+            hname, log, _vk = extra[c].pop(rng.randrange(len(extra[c])))
             steps.append(dict(who=c, h=hname, addr=log, m='dropview', drop=True))
             k += 1
             for c2 in clients:
-                for h2, a2 in extra[c2]:
+                for h2, a2, vk2 in extra[c2]:
                     if a2 == log:
-                        steps.append(dict(who=c2, h=h2, addr=a2, m='len', py=['__len__', []]))
+                        steps.append(dict(who=c2, h=h2, addr=a2, m='len', py=['__len__' if vk2 == 'list' else 'size', []]))
                         k += 1
             continue
         steps.append(one_op(rng.choice(clients)))
@@ -285,11 +348,23 @@ def gen_case(rng: random.Random, tier: str, bias: str = ''):
                               keep=True, final=True))
         elif o['kind'] == 'value':
             steps.append(dict(who=c, h=h, addr=a, m='vget', py=['get', []], keep=True, final=True))
+        elif o['kind'] == 'hub':
+            steps.extend(hub_finals(o, c))
         else:
             steps.append(dict(who=c, h=h, addr=a, m='cget', py=['get', []], final=True))
             steps.append(dict(who=c, h=h, addr=a, m='snapshot', py=['snapshot', []], final=True))
     return dict(kind='proxycall', objs=objs, clients=clients, ops=steps,
                 proc_cls=rng.choice(['mpservice', 'stdlib']), seed=rng.randrange(1 << 30))
+
+
+def hub_finals(o, c):
+    out = []
+    for which, sub in ((0, o['mem']), (1, o['disk'])):
+        hname = f'f{sub}'
+        out.append(dict(who=c, h=f'o{o["addr"]}', addr=o['addr'], m=f'view{which}',
+                        py=['mem_store' if which == 0 else 'disk_store', []], keepas=hname, new=[[hname, sub, 'cont']]))
+        out.append(dict(who=c, h=hname, addr=sub, m='slice', py=['items', []], final=True))
+    return out
 
 
 def _finals(objs, who='1'):
@@ -305,6 +380,8 @@ def _finals(objs, who='1'):
                             keep=True, final=True))
         elif o['kind'] == 'value':
             out.append(dict(who=who, h=h, addr=a, m='vget', py=['get', []], keep=True, final=True))
+        elif o['kind'] == 'hub':
+            out.extend(hub_finals(o, who))
         else:
             out.append(dict(who=who, h=h, addr=a, m='cget', py=['get', []], final=True))
             out.append(dict(who=who, h=h, addr=a, m='snapshot', py=['snapshot', []], final=True))
@@ -379,6 +456,36 @@ def boundary_cases():
         dict(who='1', h='o0', addr=0, m='cget', py=['get', []])]
     out.append(dict(kind='proxycall', objs=objs2, clients=['0', '1'], ops=c + _finals(objs2), proc_cls='mpservice', seed=0,
                     boundary='raise-inside-server'))
+    # a Hub: managed() without typeid on two classes that share their name (typeid) but not their methods, both
+    # proxied in one process in either order; in-place operators on a hosted list; a storm of concurrent
+    # managed(<ad-hoc instance>) returns next to slow constructors
+    hobjs = [dict(addr=0, kind='hub', mem=1, disk=2), dict(addr=3, kind='list', init=[1, 2])]
+    hub = hobjs[0]
+
+    def view(w, which, hname):
+        return dict(who=w, h='o0', addr=0, m=f'view{which}', py=['mem_store' if which == 0 else 'disk_store', []],
+                    keepas=hname, new=[[hname, 1 + which, 'cont']])
+    d = [view('0', 0, 'ma'), view('0', 1, 'da'),            # client 0: memory store first
+         view('1', 1, 'db'), view('1', 0, 'mb'),            # client 1: disk store first
+         dict(who='0', h='ma', addr=1, m='append', py=['add', ['x']], margs=['x']),
+         dict(who='1', h='db', addr=2, m='append', py=['add', [1]], margs=[1]),
+         dict(who='1', h='db', addr=2, m='append', py=['add', [2]], margs=[2]),
+         dict(who='0', h='da', addr=2, m='reverse', py=['flip', []]),
+         dict(who='1', h='mb', addr=1, m='popLast', py=['take', []]),
+         dict(who='1', h='db', addr=2, m='reverse', py=['flip', []]),
+         dict(who='0', h='ma', addr=1, m='popLast', py=['take', []]),
+         dict(who='0', h='da', addr=2, m='slice', py=['items', []]),
+         dict(who='2', h='o3', addr=3, m='imul', inplace=['imul', 2], mint=[2]),
+         dict(who='1', h='o3', addr=3, m='len', py=['__len__', []]),
+         dict(who='2', h='o3', addr=3, m='iadd', inplace=['iadd', [7, {'$h': 'o0'}]], mlist=[7, {'$h': 'o0'}]),
+         dict(who='2', h='o3', addr=3, m='append', py=['append', ['still-a-proxy']], margs=['still-a-proxy']),
+         dict(who='0', h='o3', addr=3, m='imul', inplace=['imul', 0], mint=[0]),
+         dict(who='2', h='o3', addr=3, m='iadd', inplace=['iadd', [[1]]], mlist=[[1]]),
+         storm_step(hub, ['0', '1', '2'], 3, 40, 0),
+         dict(who='1', h='mb', addr=1, m='len', py=['size', []])]
+    for pc in ('mpservice', 'stdlib'):
+        out.append(dict(kind='proxycall', objs=hobjs, clients=['0', '1', '2'], ops=d + _finals(hobjs, '2'), proc_cls=pc,
+                        seed=0, boundary='hub-stores-inplace-storm'))
     for name, ops, clients in (('raise-and-go-on', a, ['0', '1']), ('managed-view', b, ['0', '1', '2'])):
         for pc in ('mpservice', 'stdlib'):
             out.append(dict(kind='proxycall', objs=objs, clients=clients, ops=ops + _finals(objs, clients[-1]),
@@ -392,10 +499,10 @@ def boundary_cases():
 
 def director_case(case):
     steps = []
-    typeid = {'list': 'list', 'dict': 'dict', 'ns': 'Namespace', 'value': 'Value', 'counter': 'Counter'}
+    typeid = {'list': 'list', 'dict': 'dict', 'ns': 'Namespace', 'value': 'Value', 'counter': 'Counter', 'hub': 'Hub'}
     for o in case['objs']:
         args = {'list': [o.get('init', [])], 'dict': [], 'ns': [], 'value': ['i', o.get('init', 0)],
-                'counter': [o.get('init', 0)]}[o['kind']]
+                'counter': [o.get('init', 0)], 'hub': []}[o['kind']]
         steps.append(dict(who='0', cmd=['create', typeid[o['kind']], args, f'o{o["addr"]}'],
                           new=[[f'o{o["addr"]}', o['addr'], 'plain']]))
     pairs = [[f'o{o["addr"]}', f'o{o["addr"]}'] for o in case['objs']]
@@ -408,6 +515,12 @@ def director_case(case):
             continue
         if op.get('drop'):
             steps.append(dict(who=op['who'], cmd=['delete', op['h']], may_raise=True))
+            continue
+        if 'storm' in op:
+            steps.append(dict(who='0', cmd=['par', op['storm']], may_raise=True))
+            continue
+        if 'inplace' in op:
+            steps.append(dict(who=op['who'], cmd=['inplace', op['h'], op['inplace'][0], op['inplace'][1]], may_raise=True))
             continue
         keep = [op['keepas']] if op.get('keepas') else None
         if 'attr' in op:
@@ -446,6 +559,11 @@ class LocalWorld:
                 self.obj[o['addr']] = Namespace()
             elif k == 'value':
                 self.obj[o['addr']] = Value('i', o.get('init', 0))
+            elif k == 'hub':
+                hub = e4_mgr.Hub()
+                self.obj[o['addr']] = hub
+                self.obj[o['mem']] = hub._mem
+                self.obj[o['disk']] = hub._disk
             else:
                 c = e4_mgr.Counter(o.get('init', 0))
                 self.obj[o['addr']] = c
@@ -495,6 +613,13 @@ class LocalWorld:
                     r = delattr(tgt, a[1])
             elif op['m'] == 'nsdict':
                 r = dict(tgt.__dict__)
+            elif 'inplace' in op:
+                r = tgt
+                arg = e4_mgr.decanon(op['inplace'][1], ag)
+                if op['inplace'][0] == 'imul':
+                    r *= arg
+                else:
+                    r += arg
             else:
                 args = e4_mgr.decanon(list(op['py'][1]), ag)
                 kw = e4_mgr.decanon(op.get('kwargs') or {'$dict': []}, ag)
@@ -562,6 +687,24 @@ def run_case(case):
         if isinstance(r, dict) and '$hang' in r:
             mon.append(dict(prop='C14', rule='hang', detail=f'op {k} {op.get("m", "par")}: {r["$hang"]}'))
             break
+        if 'storm' in op:
+            parts = r if isinstance(r, list) else [r]
+            badp = [x for x in parts if not isinstance(x, dict) or x.get('bad') or x.get('hung') or x.get('good') != op['want']]
+            if any(isinstance(x, dict) and x.get('hung') for x in parts):
+                mon.append(dict(prop='C14', rule='hang',
+                                detail=f'op {k}: concurrent hub.widget(n) calls by {[w for w, _ in op["storm"]]} (managed(<ad-hoc '
+                                       f'instance>) returns next to Slow() constructions) did not finish within 15 s — calls through '
+                                       f'proxies block for ever (server dead-locked): {str(parts)[:600]}'))
+                break
+            if badp:
+                mon.append(dict(prop='C14', rule='concurrent-managed',
+                                detail=f'op {k}: hub.widget(n) — a hosted method returning managed(<ad-hoc class instance>) — called '
+                                       f'concurrently by {[w for w, _ in op["storm"]]} ({op["storm"][0][1][2]} threads x '
+                                       f'{op["storm"][0][1][3]} calls each, a Slow() creator alongside): not every call gave a live '
+                                       f'proxy behaving like the object: {str(badp)[:900]}'))
+                break
+            k += 1
+            continue
         if 'par' in op:
             flat = [x for part in (r if isinstance(r, list) else []) for x in (part if isinstance(part, list) else [part])]
             bad = [x for x in flat if x is not None]
@@ -613,10 +756,14 @@ def run_case(case):
         else:
             got = ('ret', norm_remote(r))
             lin.append((op, ('ret', norm_remote(r))))
-        where = (f'op {k} {op["m"]}{op.get("py", op.get("attr"))} on object {op["addr"]} by client {op["who"]}')
+        where = (f'op {k} {op["m"]}{op.get("py", op.get("attr", op.get("inplace")))} on object {op["addr"]} by client {op["who"]}')
         if got != tuple(want):
             if op.get('m') == 'history':
                 rule = 'managed-alias'
+            elif 'inplace' in op and got[0] == 'ret':
+                rule = 'inplace-rebinds'       # after `x op= v` the name is no longer (a proxy of) the hosted object
+            elif got[0] == 'exc' and want[0] == 'ret' and got[1] == 'AttributeError' and not r['$raised'].get('remote'):
+                rule = 'method-missing'        # the proxy lacks a method its hosted object has
             elif got[0] == 'exc' and want[0] == 'ret' and got[1] == 'RemoteError' and 'KeyError' in str(got[2]):
                 rule = 'dead-proxy'            # the referent of a live proxy is gone from the server
             elif got[0] == 'exc' and want[0] == 'ret':
@@ -666,6 +813,8 @@ def _mop(enc, op):
         return f'fail {enc.tok(op["fail"])[1:]} {FAIL[op["fail"]]}'
     if m == 'relayFail':
         return f'relayFail r{op["mref"]} {enc.tok(op["fail"])[1:]} {FAIL[op["fail"]]}'
+    if m == 'iadd':
+        return 'iadd ' + enc.toks(op['mlist'])
     if m in ('poke', 'pokePop'):
         parts.append(f'r{op["mref"]}')
     if 'mlist' in op:
@@ -706,6 +855,8 @@ def model_lines(cid, case, res):
             lines.append(f'new {a} ns')
         elif o['kind'] == 'value':
             lines.append(f'new {a} cell {enc.tok(o.get("init", 0))}')
+        elif o['kind'] == 'hub':
+            lines.append(f'new {a} hub {o["mem"]} {o["disk"]}')
         else:
             lines.append(f'new {a} ctr {o.get("init", 0)} {o["log"]}')
     for op, o in res.get('lin', []):
